@@ -6,15 +6,18 @@ import (
 	"strings"
 	"sync"
 
+	"verif/engine/e2"
 	"verif/engine/hmain"
 	"verif/engine/report"
 	"verif/harness/chordlib"
 )
 
 func init() {
-	props["C02"] = hmain.Prop{Level: "model_checking", Run: func(c *report.Check) { churn(c, "C02") }, Replay: churnReplay("C02")}
-	props["C03"] = hmain.Prop{Level: "model_checking", Run: func(c *report.Check) { churn(c, "C03") }, Replay: churnReplay("C03")}
-	props["C05"] = hmain.Prop{Level: "model_checking", Run: func(c *report.Check) { churn(c, "C05") }, Replay: churnReplay("C05")}
+	for _, p := range []string{"C02", "C03", "C05"} {
+		p := p
+		kv := p != "C02"
+		props[p] = hmain.Prop{Level: "model_checking", Run: func(c *report.Check) { churn(c, p) }, Worker: e2.Worker(concLookup(p, kv)), Replay: concReplay(p, kv)}
+	}
 }
 
 // churnCase is one serial membership history.
@@ -213,19 +216,37 @@ func churn(c *report.Check, prop string) {
 	}
 	close(ch)
 	wg.Wait()
-	c.Set("states", len(finals))
-	c.Set("transitions", len(cases))
-	c.Set("traces_validated_against_impl", len(cases))
-	c.Set("evaluations", len(cases))
+	// concurrent leg: membership operations racing each other, every schedule within the bound
+	scns := concScenarios(c.Thorough())
+	cb := 1
+	if c.Thorough() {
+		cb = 2
+	}
+	sum := e2.Drive(c, []e2.Plan{{Scns: scns, Bound: cb, NShards: 4}}, 0)
+	for _, v := range sum.Violations {
+		cls := v.Violation
+		if i := strings.Index(cls, " ("); i > 0 {
+			cls = cls[:i]
+		}
+		c.Violation(strings.ToLower(prop)+":conc:"+v.Scn+":"+cls, fmt.Sprintf("concurrent scenario %s: %s", v.Scn, v.Violation), map[string]any{"scenario": v.Scn, "choices": v.Choices})
+	}
+	c.Set("conc_scenarios", len(scns))
+	c.Set("conc_schedules", sum.Executions)
+	c.Set("conc_preemption_bound", cb)
+	c.Set("conc_distinct_outcomes", len(sum.Outcomes))
+	c.Set("states", len(finals)+len(sum.Outcomes))
+	c.Set("transitions", len(cases)+sum.Transitions)
+	c.Set("traces_validated_against_impl", len(cases)+sum.Executions)
+	c.Set("evaluations", len(cases)+sum.Executions)
 	c.Set("distinct_nontrivial", dist.N())
 	c.Set("refused_or_noop_events", refused)
 	if kv {
 		c.Set("acknowledged_kv_operations", acked)
 	}
-	c.Set("rule", fmt.Sprintf("every serial history of up to %d graceful join(x via y)/leave(x) events from create(f), f ∈ %v, over the id universe %v (adjacent ids, ids next to the wrap point), with at most %d events not followed by a maintenance fix-point; real LocalNodes; after a final quiet period the oracle is evaluated; class = (event kinds with deviation marks, final ring size); 'states' = distinct final memberships", depth, firsts, u, dev))
+	c.Set("rule", fmt.Sprintf("every serial history of up to %d graceful join(x via y)/leave(x) events from create(f), f ∈ %v, over the id universe %v (adjacent ids, ids next to the wrap point), with at most %d events not followed by a maintenance fix-point; real LocalNodes; after a final quiet period the oracle is evaluated; class = (event kinds with deviation marks, final ring size). Concurrent leg: every schedule within preemption bound %d of %d membership-race scenarios (see C06) with the same oracle after a quiet period. 'states' = distinct final memberships + distinct concurrent outcomes", depth, firsts, u, dev, cb, len(scns)))
 	c.Set("samples", dist.Samples)
 	c.Set("exhaustive", true)
-	c.Assume("serial histories here; concurrent membership changes are explored by the schedule-exploration leg", "direct calls between nodes; maintenance driven manually (verif hook); a join refused after its retries leaves membership unchanged")
+	c.Assume("calls between nodes through the in-process RPC view model calls between nodes; maintenance driven manually (verif hook); a join refused after its retries leaves membership unchanged")
 	if kv {
 		c.Assume("KV workload is a deterministic function of the history position: at every gap every key (two per large arc) gets a new value or a delete, a new child and removal of an older child, through rotating entry nodes")
 	}
